@@ -960,6 +960,14 @@ def check_czar(run, exe, model, cases, scratch):
             run.violation("czar:gather-deadlock", "the walkers did not complete the collective CZAR gather (%s)" % str(e)[:200], {"kind": "czar", "case": c})
             continue
         lines = []
+        wrapped = [(t, w_, k_) for (t, dumps, pr, before) in res for w_, d in enumerate(list(dumps) + list(before)) if d
+                   for k_ in ("cnt", "lcnt", "ocnt", "zcnt", "gzcnt") if d.get(k_) and any(x >= 2 ** 62 for x in d[k_])]
+        if wrapped:
+            t, w_, k_ = wrapped[0]
+            run.violation("czar:count-wrapped-around", "eABF walkers: at the gather of step %d a count grid (%s) of walker %d holds a value >= 2^62: an unsigned "
+                          "count was decremented below zero (a snapshot that is not what it should be was subtracted from the counts)" % (t, k_, w_ % c["n"]),
+                          {"kind": "czar", "case": c, "step": t})
+            continue
         for (t, dumps, pr, before) in res:
             if any(d is None or d.get("zcnt") is None for d in dumps):
                 run.violation("czar:no-state", "a walker printed no CZAR state after the gather at step %d" % t, {"kind": "czar", "case": c})
